@@ -22,12 +22,18 @@ class ConfigDict(ComposedNode, dict):
     def __init__(self, value=None, **kwargs):
         value = value if value is not None else {}
         #ComposedNode.maybe_inherit_flags(value, kwargs)
+        for name in value.keys():
+            self._check_name(name)
         ComposedNode.__init__(self, children=value, **kwargs)
         dict.__init__(self, self._children)
 
-    def _set(self, name, value):
+    def _check_name(self, name):
+        # (the same for every way in which a child can get its name: construction, assignment, renaming)
         if name in dir(type(self)):
             raise ValueError(f'Cannot add a child node with name {name!r} as it would shadow a class method/attribute: {getattr(type(self), name)}')
+
+    def _set(self, name, value):
+        self._check_name(name)
         value = ComposedNode.ayns.set_child(self, name, value)
         dict.__setitem__(self, name, value)
         return value
@@ -74,6 +80,7 @@ class ConfigDict(ComposedNode, dict):
 
     @namespace('ayns')
     def rename_child(self, old_name, new_name):
+        self._check_name(new_name)
         child = ComposedNode.ayns.rename_child(self, old_name, new_name)
         dict.__delitem__(self, old_name)
         dict.__setitem__(self, new_name, child)
